@@ -47,9 +47,22 @@ Inductive case := Case (cc : ccfg) (ds : list nat) (evs : list event) (x : expec
 
 Definition addr_eqb (a b : bytes * Z) : bool := bytes_eqb (fst a) (fst b) && (snd a =? snd b)%Z.
 
+(* while a connection is torn down an upstream may or may not be served once more (C07's subject):
+   what its peer has is between what it had at the last flush and everything queued *)
+Definition between (u : upconn) (got : bytes) : bool :=
+  is_prefix (up_stream u) got && is_prefix got (up_all u).
+
+Fixpoint list_eqb2 {A B} (f : A -> B -> bool) (x : list A) (y : list B) : bool :=
+  match x, y with
+  | [], [] => true
+  | a :: x', c :: y' => f a c && list_eqb2 f x' y'
+  | _, _ => false
+  end.
+
 Definition obs_eqb (s : hstate) (x : expect) : bool :=
   list_eqb addr_eqb (connect_log s) (x_connect x) &&
-  list_eqb bytes_eqb (map up_stream (conns s)) (x_up x) &&
+  (if status_code s =? 0 then list_eqb bytes_eqb (map up_stream (conns s)) (x_up x)
+   else list_eqb2 between (conns s) (x_up x)) &&
   bytes_eqb (client_stream s) (x_client x) &&
   (status_code s =? x_status x) &&
   (if status_code s =? 0 then Bool.eqb (pending_request s) (x_pending x) else true).
